@@ -94,6 +94,10 @@ def referenced_stable(c, outcome, before, after):
     bb, bl, bo, _, _ = refs_of(before)
     ab, al, ao, _, _ = refs_of(after)
     bad = []
+    # "while at least one pid is bound to a cid": bound = has a pid reference naming it (before and after the call)
+    for p, cid in ab.items():
+        if bb.get(p) == cid and cid in bo and cid not in ao:
+            bad.append("object %s removed by %s although pid %s is still bound to it" % (cid, c["op"], p))
     for cid, l in al.items():
         if l and cid in bo and cid not in ao:
             bad.append("object %s removed while still referenced by %s" % (cid, l))
